@@ -36,7 +36,7 @@ CLAIMS = {
          'quinn stream isolation/ordering/no-duplication trusted; concurrency and datagram faults outside', '2/C02'),
  'C06': ('E1+E2', 'total decoders for untrusted bytes (preamble over all 2^64 inputs, frame head for every prefix/limit, status codes) by Kani; error confinement, accept-loop handling of stray streams/datagrams, no-panic of dispatch/fallback/timeout parsing by mirsym',
          'bincode/serde/matchit/hashbrown panic-freedom trusted (out of reach); stream-level misbehaviour outside', '2/C06'),
- 'C09': ('E2', 'local steps: disconnect = removal(Requested) under the lock, Peer handles only for listed connections, total namesake reason mapping, idle-timeout/keep-alive applied on every config path, handler exit removes own connection by stable id before tearing down tasks',
+ 'C09': ('E1+E2', 'local steps: disconnect = removal(Requested) under the lock, Peer handles only for listed connections, total namesake reason mapping, idle-timeout/keep-alive applied on every config path and every stream/window limit as min(n, 2^62-1) (VarInt contract checked by Kani on quinn-proto), handler exit removes own connection by stable id before tearing down tasks, a failed handler task is never ignored',
          'eventual mutuality and loss detection are QUIC timers (outside)', '2/C09'),
  'C12': ('E2', 'cancellation mechanism: select race decided for every start index/readiness order/completion value, nothing awaited outside the race, stopped-first => no response, SendStream drop resets, connection end aborts request tasks, request failures touch only their stream',
          'quinn reset/stop propagation and stream credit trusted', '2/C12'),
